@@ -78,7 +78,7 @@ def main(tier, replay=None):
             traces.append(A.agp_trace(0, "fasta-cache", ft["agp"], [{"obj": r["name"], "len": len(r["res"])} for r in ft["recs"]]))
     # (d) the AGP written beside a FASTA by the pretext-to-asm CLI, with the lengths of the records actually written
     from harness import cli_engine
-    jobs = [{"root": str(run.sub("cli")), "cfg": c, "buf": b, "tid": 0} for c in ("single", "multi", "twohap") for b in (16, 64, 250000)]
+    jobs = [{"root": str(run.sub("cli")), "cfg": c, "buf": b, "tid": 0} for c in ("single", "multi", "twohap") for b in (7, 64, 250000)]
     for r in C.pmap("harness.cli_engine", "cli_fasta_case", jobs, chunk=1):
         traces += r["agps"]
     for i, t in enumerate(traces, 1):
@@ -94,7 +94,7 @@ def main(tier, replay=None):
         "evaluations": len(traces), "distinct_nontrivial": sum(1 for t in traces if len(t["lines"]) > 1),
         "rule": "every AGP text written while (a) formatting the C05 universe, (b) remapping valid PretextView scenarios (cut, reversed, fused scaffolds; all "
                 "output assemblies), (c) indexing FASTA files of the bounded universe with a 2-residue buffer (.agp cache read back from disk), (d) the pretext-to-asm CLI writing "
-                "FASTA + companion AGP with stream buffers 16 / 64 / 250000 (object length = length of the record written); TLC evaluates AgpTpf!AgpValid and the "
+                "FASTA + companion AGP with stream buffers 7 / 64 / 250000 (object length = length of the record written); TLC evaluates AgpTpf!AgpValid and the "
                 "object-length clause on each; non-trivial = more than one line",
         "agp_texts_by_source": src, "agp_lines": sum(len(t["lines"]) for t in traces),
         "samples": [traces[0], traces[len(traces) // 2], traces[-1]], "known_findings_seen": run.known,
